@@ -14,8 +14,8 @@ use boa_parser::{Parser, Source};
 use serde_json::{Value, json};
 use std::collections::BTreeMap;
 
-pub const TOKENS: [&str; 63] = [
-    "a", "0", "'s'", "`t`", "`${", "}`", "/r/", "(", ")", "{", "}", "[", "]", ";", ",", ".", "...", "=>", "?", "?.", "??", "=", "+=", ":",
+pub const TOKENS: [&str; 66] = [
+    "a", "0", "1.5", "4294967295", "1n", "'s'", "`t`", "`${", "}`", "/r/", "(", ")", "{", "}", "[", "]", ";", ",", ".", "...", "=>", "?", "?.", "??", "=", "+=", ":",
     "function", "class", "async", "await", "yield", "let", "var", "const", "if", "else", "for", "in", "of", "while", "do", "switch", "case",
     "break", "continue", "return", "throw", "try", "catch", "finally", "new", "delete", "typeof", "this", "super", "import", "export",
     "static", "get", "#p", "*", "-", "++", "!", "\n",
